@@ -99,7 +99,7 @@ func srPermAuth(rng *rand.Rand, auth []gmsl.PDU) []gmsl.PDU {
 func propC11(c *Ctx) {
 	srSilence()
 	rng := c.Rng
-	nh := c.Scale(70, 900)
+	nh := c.Scale(70, 280)
 	k := c.Scale(8, 64)
 	for i := 0; i < nh; i++ {
 		in := srGenInput(c, i, true)
